@@ -10,7 +10,7 @@ from ..report import Check
 from ..setalg import FixedArray, Interp, ModelRaise, Obj
 from ..types import Types
 from ..util import calls_in, fkey, is_method_call, node_calls, path_of, recv_of, where
-from .mgr import module_writers, MGR, CORE, self_call
+from .mgr import const_resolver, module_writers, MGR, CORE, self_call
 
 COUNTERS = ("message_counts", "traffic_counter")
 
@@ -176,7 +176,15 @@ def run(prog: Program, chk: Check):
                  f"{rn} reaches the clear of {cn} only conditionally ({cond_links}): counts of an interval without a report leak into the next report")
         rf_ = body
         rg = C.build(rf_.node)
-        loops = [n for n in rg.nodes if n.kind == "for" and f"self.{cn}.items()" in norm(n.ast.iter)]
+        # "the copy": the statements that read the counter's contents - a loop over its items, or a snapshot of them
+        # (`items = list(self.traffic_counter.items())`) that later loops walk
+        def reads_counter(n_):
+            if n_.ast is None:
+                return False
+            ex = n_.ast.iter if n_.kind == "for" else (n_.ast.value if n_.kind == "stmt" and isinstance(n_.ast, (ast.Assign, ast.AnnAssign)) and n_.ast.value is not None else None)
+            return ex is not None and any(t_ in norm(ex) for t_ in (f"self.{cn}.items()", f"self.{cn}.keys()", f"self.{cn}.values()", f"dict(self.{cn})", f"list(self.{cn})", f"self.{cn}.copy()"))
+
+        loops = [n for n in rg.nodes if reads_counter(n)]
         clears = [n for n in rg.nodes if any(is_method_call(c, "clear") and path_of(recv_of(c)) == f"self.{cn}" for c in node_calls(n))]
         # a clear that is not preceded by the copy is tolerated only on a branch taken when nobody is subscribed to the
         # report (the branch condition reads self.subscriptions); what that branch does is decided by C18-K's two scenarios
@@ -184,13 +192,13 @@ def run(prog: Program, chk: Check):
         early = [c for c in clears if flow.must_precede(rg, loops, [c])]
         unexplained = [c for c in early if not all(any("self.subscriptions" in norm(ex) for ex, _pol in p) for p in gsr.at(c))]
         clears = [c for c in clears if c not in early]
-        if len(loops) != 1 or len(clears) != 1 or unexplained:
+        if len(loops) < 1 or len(clears) != 1 or unexplained:
             R.bad(fkey(rf, f"{cn}:copy-then-clear"), where(rf_), f"{rf_.name}: expected one copy loop over {cn}.items() followed by one clear, found {len(loops)} loop(s), {len(clears)} clear(s) after it"
                   + (f", and a clear without a preceding copy at line {[c.ast.lineno for c in unexplained]}" if unexplained else ""))
             continue
         okc = not flow.must_follow(rg, [rg.entry], clears + early, exits=("exit",))
         # the clear comes after the loop finished (not inside it)
-        okc = okc and not any(a is loops[0].ast for a in ancestors(clears[0].ast))
+        okc = okc and not any(isinstance(a, (ast.For, ast.While)) and any(x is rf_.node for x in ancestors(a)) for a in ancestors(clears[0].ast))
         R.decide(okc, fkey(rf, f"{cn}:copy-then-clear"), where(rf_), "copy loop completes, then the counter is cleared, on every normal path", f"{rf_.name} does not clear {cn} after copying it on every path")
         # calls between the copy loop and the clear that can forward must sit inside the ctx block
         between = flow.reach(rg, [loops[0].id], blocked={clears[0].id}, blocked_pass_exc=False)
@@ -211,28 +219,60 @@ def run(prog: Program, chk: Check):
     T = chk.rule("C18-T", "send_timing_message stores count at index type for every counted type and pid at index mod_id for every module", 2,
                  "a filtered loop leaves counted types or live modules out of the report")
     st = mm.methods["send_timing_message"]
+    from .c03 import array_fields
+
+    arrs = array_fields(prog)
+    stcm = guards.copy_map(st.node)  # `timing = data.timing` is looked through
+    stres = const_resolver(prog, st.module)
+    stg = C.build(st.node)
     for it, tgt_attr, val in (("self.message_counts.items()", "timing", None), ("self.modules.values()", "ModulePID", "pid")):
         lp = [n for n in walk_local(st.node) if isinstance(n, ast.For) and norm(n.iter) == it]
         okl = len(lp) == 1
         if okl:
-            stores = [s for s in walk_local(lp[0]) if isinstance(s, ast.Assign) and any(isinstance(t, ast.Subscript) and isinstance(t.value, ast.Attribute) and t.value.attr == tgt_attr for t in s.targets)]
-            skips = [s for s in walk_local(lp[0]) if isinstance(s, (ast.Continue, ast.Break))]
-            okl = len(stores) == 1 and not skips
-            if okl and val is None:
-                k, v = (lp[0].target.elts[0].id, lp[0].target.elts[1].id)
-                okl = norm(stores[0].targets[0].slice) == k and norm(stores[0].value) == v
-            elif okl:
-                mv = lp[0].target.id
-                okl = norm(stores[0].targets[0].slice) == f"{mv}.mod_id" and norm(stores[0].value) == f"{mv}.{val}"
-            # a guard around the store may only be a range bound on the index (C03), never a filter on the value
+            lp0 = lp[0]
+            # the store data.<table>[key] = value, the table possibly through a local alias
+            stores = [s_ for s_ in walk_local(lp0) if isinstance(s_, ast.Assign) and any(isinstance(t, ast.Subscript) and norm(guards.subst(t.value, stcm)).endswith(f".{tgt_attr}") for t in s_.targets)]
+            okl = len(stores) == 1 and not any(isinstance(x, ast.Break) for x in walk_local(lp0))
             if okl:
-                conds = [a for a in ancestors(stores[0]) if isinstance(a, ast.If) and any(x is lp[0] for x in ancestors(a))]
-                for c in conds:
-                    names = {n.id for n in ast.walk(c.test) if isinstance(n, ast.Name)}
-                    idx = {n.id for n in ast.walk(stores[0].targets[0].slice) if isinstance(n, ast.Name)}
-                    if not names <= idx | {"cd"}:
-                        okl = False
-        T.decide(okl, fkey(st, f"table:{tgt_attr}"), where(st), f"every item of {it} is stored into data.{tgt_attr}", f"send_timing_message does not store every item of {it} into data.{tgt_attr}[key]")
+                tgt = stores[0].targets[0]
+                if val is None:
+                    k, v = (lp0.target.elts[0].id, lp0.target.elts[1].id)
+                    okl = norm(tgt.slice) == k and norm(stores[0].value) == v
+                else:
+                    mv = lp0.target.id
+                    k = f"{mv}.mod_id"
+                    okl = norm(tgt.slice) == k and norm(stores[0].value) == f"{mv}.{val}"
+            if okl:
+                # an iteration may skip the store only when the index lies outside the table (the C03 range bound): facts on
+                # every way back to the loop head that bypasses the store must imply `k < 0 or k >= len(table)`
+                sn = [n for n in stg.nodes if n.ast is stores[0]]
+                head = [n for n in stg.nodes if n.kind == "for" and n.ast is lp0]
+                if not sn or not head:
+                    okl = False
+                else:
+                    sid = {sn[0].id}
+                    gsk = flow.guard_states(stg, edge_filter=lambda e: not (e.src in sid and e.kind != "exc"), focus=[stores[0]])
+                    body_ids = {n.id for n in stg.nodes if n.ast is not None and any(a is lp0 for a in ancestors(n.ast))}
+                    owner = [cname for (cname, fld), ln in arrs.items() if fld == tgt_attr]
+                    ln = next((ln_ for (cname, fld), ln_ in arrs.items() if fld == tgt_attr), None)
+                    goal = guards.parse(f"{k} < 0 or {k} >= {ln}") if ln is not None else None
+                    if val is None:
+                        # message types are whatever clients sent: a negative one must not reach the store, where ctypes would
+                        # silently count it for type len+k (an upper overflow raises instead, which is C03's concern)
+                        gss = flow.guard_states(stg, focus=[stores[0]])
+                        sp_ = [[(guards.fold_consts(guards.subst(x, stcm), stres), pol) for x, pol in p_] for p_ in gss.at(sn[0])]
+                        with guards.int_theory():
+                            if guards.any_path_implies(sp_, guards.parse(f"not ({k} < 0)")):
+                                okl = False
+                    for e in stg.pred[head[0].id]:
+                        if e.src not in body_ids or e.src in sid or e.kind == "exc":
+                            continue
+                        paths = [[(guards.fold_consts(guards.subst(x, stcm), stres), pol) for x, pol in p_] for p_ in gsk.after_edge(e)]
+                        with guards.int_theory():
+                            if goal is None or guards.any_path_implies(paths, goal):
+                                okl = False
+        T.decide(okl, fkey(st, f"table:{tgt_attr}"), where(st), f"every item of {it} is stored into data.{tgt_attr} (skipped only when its index is outside the table)",
+                 f"send_timing_message does not store every item of {it} into data.{tgt_attr}[key]")
 
     # ---- K chunking (abstract interpretation over symbolic entries) ----------------------------------------------------
     K = chk.rule("C18-K", "the sub-messages of one MESSAGE_TRAFFIC report list every (type, count) entry exactly once and nothing else", 9,
